@@ -146,24 +146,75 @@ mod k {
         std::mem::forget(p);
     }
 
-    /// VERIF: {"p":"C06","tier":"quick","fns":["dns::dnspkt::DNSPkt::clone_with_ttl_decrement","dns::dnspkt::DNSPkt::get_expiry"],"bounds":"1+1+1 records with symbolic TTLs (rdata of 1/0/0 symbolic bytes), decrement symbolic with the cache's precondition decrement <= get_expiry()","oracle":"every TTL' == TTL - decrement (never grows, never below zero, never wraps); header, question, rdata, section membership unchanged","covers":2,"unwind":6}
-    #[kani::proof]
-    #[kani::unwind(6)]
-    fn c06_ttl_decrement_exact() {
-        let (a, n, d): (u32, u32, u32) = (kani::any(), kani::any(), kani::any());
-        let p = pkt(vec![rr_other::<1>(a)], vec![rr_other::<0>(n)], vec![rr_other::<0>(d)]);
+    // Stub for the derived <RData as Clone>::clone: same result for the Other variant (the only one these
+    // harnesses build).  Without it CBMC explores the clone arms of all 11 variants over reinterpreted
+    // bytes (Vec clones of symbolic length) and runs out of memory.
+    fn rdata_clone_other_only(r: &RData) -> RData {
+        match r {
+            RData::Other(v) => RData::Other(v.clone()),
+            _ => {
+                assert!(false, "harness only builds RData::Other");
+                RData::Other(Vec::new())
+            }
+        }
+    }
+
+    // one record in section `sec` (0 answer, 1 authority, 2 additional), the other sections empty
+    fn ttl_decrement_one(sec: u8) {
+        let ttl: u32 = kani::any();
+        let b: u8 = kani::any();
+        let rr = RR { domain: root(), class: CLASS_IN, rrtype: RR_A, ttl, rdata: RData::Other(vec![b]) };
+        let p = match sec {
+            0 => pkt(vec![rr], vec![], vec![]),
+            1 => pkt(vec![], vec![rr], vec![]),
+            _ => pkt(vec![], vec![], vec![rr]),
+        };
         let dec: u32 = kani::any();
-        kani::assume(dec <= a.min(n).min(d)); // the cache's precondition: decrement <= get_expiry() (see dns_cache harnesses)
+        kani::assume(dec <= ttl); // the cache's precondition: decrement <= get_expiry() == min TTL (see dns_cache harnesses)
         let q = p.clone_with_ttl_decrement(dec);
-        kani::cover!(dec > 0 && dec == a, "answer TTL reaches exactly zero");
+        kani::cover!(dec > 0 && dec == ttl, "TTL reaches exactly zero");
         kani::cover!(dec == 0, "no ageing");
-        assert!(q.answer.len() == 1 && q.nameserver.len() == 1 && q.additional.len() == 1, "no record moved, dropped or invented");
-        assert!(q.answer[0].ttl == a - dec && q.nameserver[0].ttl == n - dec && q.additional[0].ttl == d - dec, "TTL' == TTL - elapsed");
-        assert!(q.answer[0].ttl <= a && q.nameserver[0].ttl <= n && q.additional[0].ttl <= d, "TTLs never grow");
-        assert!(q.answer[0].rdata == p.answer[0].rdata && q.nameserver[0].rdata == p.nameserver[0].rdata && q.additional[0].rdata == p.additional[0].rdata, "rdata unchanged");
-        assert!(q.qid == p.qid && q.rcode == p.rcode && q.rd == p.rd && q.aa == p.aa && q.ra == p.ra && q.ad == p.ad && q.cd == p.cd && q.qr == p.qr, "header unchanged");
+        let (na, nn, nd) = (q.answer.len(), q.nameserver.len(), q.additional.len());
+        assert!(na == (sec == 0) as usize && nn == (sec == 1) as usize && nd == (sec == 2) as usize, "no record moved, dropped or invented");
+        let r = match sec {
+            0 => &q.answer[0],
+            1 => &q.nameserver[0],
+            _ => &q.additional[0],
+        };
+        assert!(r.ttl == ttl - dec, "TTL' == TTL - elapsed");
+        assert!(r.ttl <= ttl, "TTL never grows");
+        assert!(r.class == CLASS_IN && r.rrtype == RR_A && r.domain.0.is_empty(), "owner/class/type unchanged");
+        match &r.rdata {
+            RData::Other(v) => assert!(v.len() == 1 && v[0] == b, "rdata unchanged"),
+            _ => assert!(false, "rdata kind unchanged"),
+        }
+        assert!(q.qid == p.qid && q.rcode == p.rcode && q.rd == p.rd && q.aa == p.aa && q.ra == p.ra && q.ad == p.ad && q.cd == p.cd && q.qr == p.qr && q.tc == p.tc, "header unchanged");
         std::mem::forget(p);
         std::mem::forget(q);
+    }
+
+    /// VERIF: {"p":"C06","tier":"quick","fns":["dns::dnspkt::DNSPkt::clone_with_ttl_decrement"],"bounds":"one record in the answer section (TTL symbolic over 0..2^32-1, one symbolic rdata octet), other sections empty; decrement symbolic under the cache's precondition decrement <= min TTL","oracle":"TTL' == TTL - decrement (never grows, never below zero, never wraps); header, owner, type, class, rdata and section membership unchanged","stubs":["<RData as Clone>::clone (derived) -> equivalent clone restricted to the RData::Other variant the harness builds"],"covers":2,"unwind":4}
+    #[kani::proof]
+    #[kani::unwind(4)]
+    #[kani::stub(<RData as std::clone::Clone>::clone, rdata_clone_other_only)]
+    fn c06_ttl_decrement_exact_answer() {
+        ttl_decrement_one(0);
+    }
+
+    /// VERIF: {"p":"C06","tier":"quick","fns":["dns::dnspkt::DNSPkt::clone_with_ttl_decrement"],"bounds":"one record in the authority section (TTL symbolic over 0..2^32-1, one symbolic rdata octet), other sections empty; decrement symbolic under the cache's precondition decrement <= min TTL","oracle":"TTL' == TTL - decrement (never grows, never below zero, never wraps); header, owner, type, class, rdata and section membership unchanged","stubs":["<RData as Clone>::clone (derived) -> equivalent clone restricted to the RData::Other variant the harness builds"],"covers":2,"unwind":4}
+    #[kani::proof]
+    #[kani::unwind(4)]
+    #[kani::stub(<RData as std::clone::Clone>::clone, rdata_clone_other_only)]
+    fn c06_ttl_decrement_exact_authority() {
+        ttl_decrement_one(1);
+    }
+
+    /// VERIF: {"p":"C06","tier":"quick","fns":["dns::dnspkt::DNSPkt::clone_with_ttl_decrement"],"bounds":"one record in the additional section (TTL symbolic over 0..2^32-1, one symbolic rdata octet), other sections empty; decrement symbolic under the cache's precondition decrement <= min TTL","oracle":"TTL' == TTL - decrement (never grows, never below zero, never wraps); header, owner, type, class, rdata and section membership unchanged","stubs":["<RData as Clone>::clone (derived) -> equivalent clone restricted to the RData::Other variant the harness builds"],"covers":2,"unwind":4}
+    #[kani::proof]
+    #[kani::unwind(4)]
+    #[kani::stub(<RData as std::clone::Clone>::clone, rdata_clone_other_only)]
+    fn c06_ttl_decrement_exact_additional() {
+        ttl_decrement_one(2);
     }
 
     // ------------------------------------------------------------------ C15: suffix relation, ordering
